@@ -18,7 +18,7 @@ NOTES = ("Technique family: deterministic simulation with fault injection. One b
          "PCG(VERIF_SEED, run index); plans are explicit JSON, execution is a pure function of the plan; violations are minimised on the plan, "
          "written to replays/<id>/ and confirmed by replay in a fresh process before VIOLATION is printed. Exit 2 = harness/build trouble, never a verdict. "
          "Worker processes start in varied environments (GOMAXPROCS; environment variables the tree reads by literal name), recorded in the replay file; "
-         "for a tree that imports \"time\" the build routes time.Now/Since/Until/Sleep through a simulated clock that jumps between the steps of a run (not built for the pinned tree, which has no clock).")
+         "at step boundaries a plan-derived stream repeats operator calls hundreds to tens of thousands of times, soaks a middleware with requests, and lets a second middleware with a derived configuration come, act and go (sim/background.go); for a tree that imports \"time\" the build routes time.Now/Since/Until/Sleep through a simulated clock that jumps between the steps of a run (not built for the pinned tree, which has no clock).")
 
 claim("C19", "cancelsim", "fault_enumeration",
       "deterministic simulation: seeded join trees x exhaustive enumeration of consumer-cancellation points (fault injection at every yield), independent flattening oracle",
